@@ -100,7 +100,7 @@ byteswap_body_helper (DBusTypeReader       *reader,
                 elem_type = _dbus_type_reader_get_element_type (reader);
                 alignment = _dbus_type_get_alignment (elem_type);
 
-		_dbus_assert ((array_len / alignment) < DBUS_MAXIMUM_ARRAY_LENGTH);
+		_dbus_assert ((array_len / alignment) <= DBUS_MAXIMUM_ARRAY_LENGTH);
 
                 p = _DBUS_ALIGN_ADDRESS (p, alignment);
                 
